@@ -59,6 +59,16 @@ CLAIMS['C14'] = dict(
          "directly and shares exactly when the two objects differ. History-level 'released exactly once' rests on C05.",
     technique="path-sensitive typestate with a store/load model + no-wrap obligations + dominating facts over inlined LLVM IR")
 
+CLAIMS['C16'] = dict(
+    text="Decides the failure branches no test executes, for every path of the code as written: (F1) every allocator result is used or "
+         "committed only under result != NULL and nothing is stored into the receiving object outside that success region; (F2) in "
+         "every public entry point that allocates (whole-library inlined), on every path on which an allocation is known to have "
+         "failed nothing is stored into the container afterwards (path-sensitive, with a store/load model so a re-read capacity is "
+         "the unchanged one); (F3) cstl_map_insert returns -1 on that path; (F5) every block allocated on a path is committed, "
+         "returned or freed before the return (half-built bookkeeping block). Whole-script leak audits and multi-call fault "
+         "sequences are NOT explored.",
+    technique="dominating facts per allocation site + path-sensitive typestate with store/load model over inlined LLVM IR")
+
 NA = {
     'C02': "inductive colour/black-height invariant over an unbounded pointer structure; needs shape/separation reasoning that no static analyser available here provides (DESIGN.md 4/C02)",
     'C07': "heap order and completeness are inductive invariants tying pointer shape to size arithmetic; not expressible as dataflow/typestate/effects (DESIGN.md 4/C07)",
